@@ -130,12 +130,20 @@ def run_vector(acc, q, tier):
             for bi, base in enumerate(bases):
                 ref = O.exp_mech_probs(q, eps, sens, 0.5, base)
                 S = float(np.max(np.abs(0.5 * eps / sens * qs)))
-                for form in ('array', 'dict', 'list'):
+                for form in ('array', 'dict', 'list', 'dict-reordered-base', 'dict-superset-base'):
                     rec = Recorder()
                     m = _mech_instance(False)
                     with E.installed(rec):
                         if form == 'dict':
                             out = m.exponential_mechanism(dict(zip(keys, qs)), eps, sens, base_measure=None if base is None else dict(zip(keys, base)))
+                        elif form in ('dict-reordered-base', 'dict-superset-base'):
+                            # the base measure is a mapping: its insertion order / extra keys must not matter
+                            if base is None or bi != 2:
+                                continue
+                            bm = dict(reversed(list(zip(keys, base))))
+                            if form == 'dict-superset-base':
+                                bm = dict([('zz-unused', 7.0)] + list(bm.items()) + [('yy-unused', 0.5)])
+                            out = m.exponential_mechanism(dict(zip(keys, qs)), eps, sens, base_measure=bm)
                         elif form == 'list':
                             if base is not None:
                                 continue
@@ -145,7 +153,7 @@ def run_vector(acc, q, tier):
                     case = {'q0': q.tolist(), 'prim': 'Mechanism.exponential_mechanism', 'q': qs.tolist(), 'eps': eps, 'sens': sens, 'base': bi, 'form': form}
                     acc.case(case, nontrivial=n >= 2)
                     err = compare(rec.p, ref, S)
-                    if err is None and form == 'dict' and out != keys[0]:
+                    if err is None and form.startswith('dict') and out != keys[0]:
                         err = 'dict form returned %r, expected the key of the drawn index' % (out,)
                     if err:
                         acc.violate(case, {'kind': 'miscalibrated', 'prim': 'Mechanism.exponential_mechanism', 'form': form}, err)
@@ -163,6 +171,21 @@ def run_vector(acc, q, tier):
                     err = compare(rec.p, ref, S)
                     if err:
                         acc.violate(case, {'kind': 'miscalibrated', 'prim': name, 'monotonic': mono}, err)
+        # adaptive_grid documents eps = inf (greedy limit): uniform over the candidates tied for the best quality
+        # (sensitivity < 1 is outside the alphabet here: finfo.max / 0.5 overflows to inf and inf*0 = NaN - eps = inf is an
+        #  implementation extension, the property's epsilon is a finite privacy parameter; noted in DESIGN.md 11.6)
+        if eps == EPS[0] and sens >= 1.0:
+            for mono in (False, True):
+                ref = (q == q.max()).astype(float)
+                ref /= ref.sum()
+                rec = Recorder()
+                with E.installed(rec):
+                    ag.exponential_mechanism(q.copy(), np.inf, sens, monotonic=mono)
+                case = {'q0': q.tolist(), 'prim': 'adaptive_grid.exponential_mechanism', 'q': q.tolist(), 'eps': 'inf', 'sens': sens, 'monotonic': mono}
+                acc.case(case, nontrivial=n >= 2)
+                err = compare(rec.p, ref, 0.0)
+                if err:
+                    acc.violate(case, {'kind': 'miscalibrated', 'prim': 'adaptive_grid.exponential_mechanism', 'monotonic': mono, 'eps': 'inf'}, 'eps=inf: ' + err)
         # selection over marginal L1 errors (mwem): errors_i = |x - xest|_1 - bias
         if sens == 1.0:
             for bounded in (False, True):
